@@ -512,13 +512,15 @@ impl RawLexer {
             None => return false,
             Some(c) => c,
         };
+        // TeX only reduces when the third character is below 128 (TeX.2021.352);
+        // otherwise the two superscript characters stand for themselves.
+        if !char_3.is_ascii() {
+            return false;
+        }
         if !char_1_consumed {
             self.advance();
         }
         self.advance();
-        if !char_3.is_ascii() {
-            return true;
-        }
         let u: u8 = match (char_3 as u32).try_into() {
             Ok(u) => u,
             Err(_) => return true, // unreachable because char_3 is ASCII
